@@ -191,12 +191,33 @@ class SReader:
 
     def __init__(self, fs, entry, data):
         self.fs, self.e, self.data = fs, entry, data
+        self.pos = 0
+
+    def seek(self, offset, whence=0):
+        c = ctx()
+        if whence != 0:
+            raise Unsupported("seek relative to the current position / end")
+        if c.interp.truth(offset < 0):
+            raise RaiseSig(OSError(22, "Invalid argument"))
+        self.fs.op("seek", self.e.path)
+        self.pos = offset
+        return offset
 
     def read(self, n=None):
-        if n is not None:
-            raise Unsupported("partial read on a modelled file")
+        """file.read(n): up to n bytes from the cursor (fewer at end of file); n None or negative: the rest"""
+        c = ctx()
         self.fs.op("read", self.e.path)
-        return self.data
+        if n is None and isinstance(self.pos, int) and self.pos == 0:
+            self.pos = self.data.len
+            return self.data
+        data, pos = self.data, self.pos
+        rest = core.smax(0, data.len - pos)
+        if n is None or (not isinstance(n, int) and c.interp.truth(n < 0)) or (isinstance(n, int) and n < 0):
+            ln = rest
+        else:
+            ln = core.smin(n, rest)
+        self.pos = pos + ln
+        return SBytes(ln, lambda i, data=data, pos=pos: data.fn(pos + i))
 
     def truth(self):
         return True
